@@ -212,6 +212,64 @@ def check_ncattr(ctx):
     ctx.floor('_ncattrs stores', n, 8)
 
 
+def check_axisperm(ctx):
+    """R-AXISPERM: the axis operation applied to the data and the bookkeeping applied to the dimension names are
+    the same permutation / insertion (sibling agreement of two statements)."""
+    mod = ctx.src.mod('core/_files.py')
+    ctx.rule('R-AXISPERM', 'data axis operation and dimension-name bookkeeping describe the same move/insert')
+    # reorderDimensions: names: varorder.pop(X); varorder.insert(Y, k)   data: np.rollaxis/moveaxis(v, X, Y)
+    q = 'PseudoNetCDFFile.reorderDimensions'
+    fn = mod.func(q)
+    where = 'src/PseudoNetCDF/core/_files.py %s' % q
+    pops = [c for c in walk_expr(fn) if isinstance(c, ast.Call) and dotted(c.func) == 'varorder.pop' and c.args]
+    ins = [c for c in walk_expr(fn) if isinstance(c, ast.Call) and dotted(c.func) == 'varorder.insert' and len(c.args) == 2]
+    swaps = [st for st in iter_stmts(fn.body) if isinstance(st, ast.Assign) and isinstance(st.targets[0], ast.Tuple) and 'varorder[' in norm(st.targets[0])]
+    ops = [c for c in walk_expr(fn) if isinstance(c, ast.Call) and (dotted(c.func) or '').split('.')[-1] in ('rollaxis', 'moveaxis', 'swapaxes', 'transpose')]
+    if not ops or not (pops and ins or swaps):
+        raise AnalysisError('construct not understood: axis bookkeeping of reorderDimensions')
+    op = ops[0]
+    name = (dotted(op.func) or '').split('.')[-1]
+    a = [norm(x) for x in op.args[1:]] + [norm(k.value) for k in op.keywords]
+    if pops and ins:
+        src_, dst = norm(pops[0].args[0]), norm(ins[0].args[0])
+        if name in ('rollaxis', 'moveaxis') and a[:2] == [src_, dst]:
+            ctx.ok('R-AXISPERM', q, where, 'names: pop(%s)/insert(%s) ; data: %s(%s -> %s)' % (src_, dst, name, src_, dst))
+        else:
+            ctx.violation(Finding('R-AXISPERM', 'core/_files.py', q, api.stmt_of(op),
+                                  'the dimension names are moved (pop(%s), insert(%s)) but the data axes are changed with %s(%s): for a move '
+                                  'across more than one position names and array shape disagree' % (src_, dst, name, ', '.join(a))))
+    else:
+        if name == 'swapaxes':
+            ctx.ok('R-AXISPERM', q, where, 'names swapped ; data swapaxes')
+        else:
+            ctx.violation(Finding('R-AXISPERM', 'core/_files.py', q, api.stmt_of(op), 'names are swapped but data axes are moved with %s' % name))
+    # insertDimension: ndims.insert(bi, dk) ; np.expand_dims(v, axis=bi)
+    q = 'PseudoNetCDFFile.insertDimension'
+    fn = mod.func(q)
+    where = 'src/PseudoNetCDF/core/_files.py %s' % q
+    ins = [c for c in walk_expr(fn) if isinstance(c, ast.Call) and dotted(c.func) == 'ndims.insert' and len(c.args) == 2]
+    ex = [c for c in walk_expr(fn) if isinstance(c, ast.Call) and (dotted(c.func) or '').split('.')[-1] == 'expand_dims']
+    if not ins or not ex:
+        raise AnalysisError('construct not understood: insertDimension axis bookkeeping')
+    ax = kw(ex[0], 'axis') or (ex[0].args[1] if len(ex[0].args) > 1 else None)
+    if ax is not None and norm(ax) == norm(ins[0].args[0]):
+        ctx.ok('R-AXISPERM', q, where, 'names insert(%s) ; data expand_dims(axis=%s)' % (norm(ins[0].args[0]), norm(ax)))
+    else:
+        ctx.violation(Finding('R-AXISPERM', 'core/_files.py', q, api.stmt_of(ex[0]), 'the new dimension name is inserted at %s but the data axis at %s'
+                              % (norm(ins[0].args[0]), norm(ax) if ax is not None else None)))
+    # removeSingleton: removed axes taken in descending order (sdims reversed) so that earlier takes do not shift later ones
+    q = 'PseudoNetCDFFile.removeSingleton'
+    fn = mod.func(q)
+    t = norm(fn)
+    where = 'src/PseudoNetCDF/core/_files.py %s' % q
+    if ')[::-1]' in t and 'outvals = outvals.take(0, axis=di)' in t and ' in sdims:' in t:
+        ctx.ok('R-AXISPERM', q, where, 'singleton axes removed from the last to the first (indices stay valid)')
+    elif 'outvals.take(0, axis=di)' in t:
+        ctx.violation(Finding('R-AXISPERM', 'core/_files.py', q, fn.body[-1], 'singleton axes are removed in ascending order: after the first take the remaining axis indices have shifted'))
+    else:
+        ctx.undec('R-AXISPERM', q, where, 'removal idiom not recognised')
+
+
 def run(ctx):
     ctx.rule('R-UNLIM', 'createDimension of a surviving key is paired with a setunlimited derived from the source dimension')
     ctx.rule('R-NCATTR', 'attribute-name list written only by life-cycle methods, in step with the attribute store')
@@ -229,3 +287,4 @@ def run(ctx):
     ctx.floor('copyDimension call sites', n, 8)
     # surviving dimensions must not be re-created with the raw primitive where the siblings use copyDimension: handled by check_unlim
     check_ncattr(ctx)
+    check_axisperm(ctx)
